@@ -47,7 +47,7 @@ def gen_value(g, base_shapes):
     rng = g.rng
     roll = rng.random()
     if roll < 0.22:
-        val = rng.choice([0, 1, 2, 3, -1, -2, -3, 7])
+        val = rng.choice([0, 1, 2, 3, -1, -2, -3, 7, 12, 20])
         return {"k": "py", "v": val}, "pyint"
     if roll < 0.28:
         val = rng.choice([65537, 70000, -70000, 100003, 2 ** 20])
@@ -62,6 +62,9 @@ def gen_value(g, base_shapes):
     if roll < 0.58:
         dtype = rng.choice(INT_DTYPES)
         val = rng.choice([0, 1, 2, 3, 5]) if dtype.startswith("u") else rng.choice([0, 1, 2, -1, -2, 3])
+        if rng.random() < 0.3:
+            # each value fits its narrow type with room to spare, products of two of them do not
+            val = rng.choice([12, 20, 100])
         return {"k": "np", "v": val, "dtype": dtype}, "np:" + dtype
     if roll < 0.64:
         dtype = rng.choice(FLOAT_DTYPES)
@@ -362,8 +365,18 @@ def run_case(case, ctx):
         if carriers:
             ctx.count("carrier")
             base = {n: G.build(param_specs[n]) for n in assigned}
-            for conv, label in ((numpy.int64, "int64"), (float, "float"), (numpy.int32, "int32"),
-                                (numpy.float64, "float64")):
+            maxdeg = {n: max([row[i] for row in pspec["exps"]] + [1])
+                      for i, n in enumerate(pspec["names"])}
+            narrow = []
+            for dtype in ("int16", "uint8", "int8", "uint16"):
+                info = numpy.iinfo(dtype)
+                # every power of every carried value fits the type itself: what remains is the
+                # product across different arguments, which is formed in int64 / float64
+                if all(info.min <= v and abs(v) ** maxdeg.get(n, 1) <= info.max
+                       for n, v in carriers.items()):
+                    narrow.append((numpy.dtype(dtype).type, dtype))
+            for conv, label in [(numpy.int64, "int64"), (float, "float"), (numpy.int32, "int32"),
+                                (numpy.float64, "float64")] + narrow:
                 alt = dict(base)
                 for n, v in carriers.items():
                     alt[n] = conv(v)
